@@ -12,10 +12,11 @@ RULE = ('Cases = worker class x target behaviour (cooperative loop, swallows eve
 ASSUMPTIONS = ['time bound evaluated on the simulated clock: elapsed <= 5 * sum(timeouts passed) + 2 s',
                'force=True is never used on thread kinds (it kills the calling process by design)']
 
-BEHAVIOURS = ['coop', 'swallow', 'sleep', 'gilhold', 'sigstop', 'finished', 'notrun', 'short', 'short']
+BEHAVIOURS = ['coop', 'swallow', 'sleep', 'gilhold', 'sigstop', 'finished', 'notrun', 'short', 'short', 'linger']
 TARGET_OF = {'coop': ('t_loop', {'n': 100000, 'd': 0.01}), 'swallow': ('t_swallow', {}), 'sleep': ('t_sleep', {'d': 1000.0}),
              'gilhold': ('t_gilhold', {}), 'sigstop': ('t_sigstop', {}), 'finished': ('t_return', {'v': 1}),
-             'notrun': ('t_return', {'v': 1}), 'short': ('t_loop', {'n': 10, 'd': 0.01})}
+             'notrun': ('t_return', {'v': 1}), 'short': ('t_loop', {'n': 10, 'd': 0.01}),
+             'linger': ('t_linger', {'d': 1000.0})}
 PTARGET_OF = {'coop': ('p_slow', {'d': 0.05}), 'swallow': ('p_swallow', {}), 'sleep': ('p_slow', {'d': 1000.0}),
               'finished': ('p_square', {}), 'notrun': ('p_square', {}), 'short': ('p_slow', {'d': 0.02})}
 
@@ -25,9 +26,9 @@ def gen_case(ctx, rng, i, tag='random'):
     kind = rng.choice(KINDS)
     thread_kind = lib.base_kind(kind) == 'thread'
     beh = rng.choice(BEHAVIOURS)
-    if thread_kind and beh in ('gilhold', 'sigstop'):
+    if thread_kind and beh in ('gilhold', 'sigstop', 'linger'):
         beh = rng.choice(['coop', 'swallow', 'sleep'])
-    if lib.is_persistent(kind) and beh in ('gilhold', 'sigstop'):
+    if lib.is_persistent(kind) and beh in ('gilhold', 'sigstop', 'linger'):
         beh = rng.choice(['coop', 'swallow', 'sleep', 'finished'])
     pol, knobs = draw_env(rng, tcp=lib.is_remote(kind), adversarial_ok=True)
     ops = []
@@ -77,7 +78,7 @@ class Run:
             extra['run'] = False
         st = lib.call_with_deadline(lib.make_worker, 600.0, kind, fn, kwargs=dict(kw), host=host, probe=False, **extra)
         if st[0] != 'ok':
-            self.info['ctor'] = st[0]
+            self.info['ctor'] = [st[0], lib.safe_repr(st[1])]
             return
         w = st[1]
         if lib.is_persistent(kind) and beh not in ('notrun',):
